@@ -119,6 +119,14 @@ CLAIMED = {
    note="Local stores only; S3 and SFTP prune/verify are not reachable offline.",
    technique="TLA+ spec checked by TLC; trace validation of real prune/verify runs",
    design="4/C16"),
+ "C20": dict(
+   text="LocalStoreFS.tla models what a client configured for one format may see and touch; TLC checks that no operation changes files of the other format. "
+        "Random histories of a compressed and an uncompressed client (LocalStore and HTTP handler+client) over one directory are compared step by step with the "
+        "model, with the directory listed by a strict parser of casync's layout; every stored object is checked to be a single standard zstd frame of the chunk "
+        "(or the raw bytes), stores are cross-read between the klauspost and the libzstd build, and casync-written fixture stores are read with both.",
+   note="zstd framing and decoding are executed leaves (independent frame walker, two implementations).",
+   technique="TLA+ spec checked by TLC; trace validation of histories on a shared directory; differential decoding with libzstd",
+   design="4/C20"),
 }
 
 NOT_YET = "check not built yet in this round (planned in DESIGN.md section 4)"
